@@ -64,7 +64,7 @@ def setup():
     import icontract
 
     def factory(orig):
-        def layout_postcondition(graph, result, default_bond=1):
+        def layout_postcondition(graph, result, default_bond=1, align_with=None):
             return positions_ok(graph, default_bond, result)
         return icontract.ensure(layout_postcondition, error=LayoutBroken)(orig)
     hooks.wrap_attr('cgsmiles.graph_layout', 'vespr_layout', factory, also=['cgsmiles.drawing'])
@@ -196,8 +196,13 @@ def run(case):
         g = relabel(rng, g0, case['how'])
         txt = f"{case['kind']} graph {case['gid']} edges {case['edges'][:30]} relabel={case['how']}"
     np.random.seed(case['sub'] % (2 ** 31))
+    align = [None, None, np.array([1.0, 0.0]), np.array([0.0, 1.0]), np.array([1.0, 1.0])][case['sub'] % 5]
     try:
-        vespr_layout(g, default_bond=case['bond'])
+        if align is None:
+            vespr_layout(g, default_bond=case['bond'])
+        else:
+            vespr_layout(g, default_bond=case['bond'], align_with=align)
+            txt += f' align_with={align.tolist()}'
     except Exception as err:
         viol.append(V('c19.exception.' + type(err).__name__, f'{txt} bond={case["bond"]}: vespr_layout raised {type(err).__name__}: {err}'))
     for clause, msg in RECORDS:
